@@ -105,7 +105,9 @@ def same_param(it, a, b, what):
 
 # ------------------------------------------------------------------------------------------------ builders
 def build_vertex(it, cls, name, vid=None):
-    return it.construct("Vertex", [vid if vid is not None else Poly.var("id_" + name), sym_pose(cls, name, unit=True)])
+    vid = vid if vid is not None else Poly.var("id_" + name)
+    it.int_tokens.add(vid.key())
+    return it.construct("Vertex", [vid, sym_pose(cls, name, unit=True)])
 
 
 def build_odometry(it, cls, name, v1, v2):
@@ -123,6 +125,7 @@ def build_landmark(it, pcls, name, v1, v2, offset, offset_id):
 def build_param(it, cls, name):
     pcls = "PoseSE2" if cls == "G2OParameterSE2Offset" else "PoseSE3"
     tag = "PARAMS_SE2OFFSET" if pcls == "PoseSE2" else "PARAMS_SE3OFFSET"
+    it.int_tokens.add(Poly.var("pid_" + name).key())
     return it.construct(cls, [(tag, Poly.var("pid_" + name)), sym_pose(pcls, "pv_" + name, unit=True)])
 
 
@@ -132,3 +135,15 @@ def expect_str(s, what):
     if not s.endswith("\n") or "\n" in s[:-1]:
         raise ObFail("%s does not produce exactly one newline-terminated line" % what)
     return s
+
+
+def mark_int(it, *polys):
+    for p in polys:
+        if isinstance(p, Poly):
+            it.int_tokens.add(p.key())
+
+
+def no_int_through_float(it):
+    bad = [e for e in it.events if e[0] == "integer-through-float"]
+    if bad:
+        raise ObFail("an integer id of the line is converted through float() (%s): ids above 2**53 change" % bad[0][1])
